@@ -6,7 +6,7 @@
      set       e=<error>;obj=<the whole object afterwards>      spec: the exact object when the text fixes it
      setframe  frame=<0|1> decided natively by the harness      spec: frame=1 always *)
 From Coq Require Import List Bool String Ascii ZArith Arith Floats.SpecFloat.
-From Verif Require Import Util Ints Strconv Floats Node GoSrc Value Outcome Nav SetEmit SetSpec Shapes EnumVal GenUnits.
+From Verif Require Import Util Ints Strconv Floats Node GoSrc Value Outcome Nav SetEmit SetSpec Shapes EnumVal GenUnits GenC08.
 Import ListNotations.
 Local Open Scope string_scope.
 
@@ -95,11 +95,12 @@ Definition picks (n : node) (v : val) (path : list string) (salt : nat) : list (
   end.
 
 (* ---------- printing ---------- *)
-Definition pr_set (o : out val) : string :=
+(* reflection cannot tell []uint8 from []byte: slices of a []uint8 node are printed in the bytes form (GenC08.u8fix) *)
+Definition pr_set_n (n : node) (o : out val) : string :=
   match o with
   | Panic k => "PANIC:" ++ pr_pkind k
-  | Ret v e => "e=" ++ pr_err e ++ ";obj=" ++ pr_obs v
-  | Fall v => "e=nil;obj=" ++ pr_obs v
+  | Ret v e => "e=" ++ pr_err e ++ ";obj=" ++ pr_obs (GenC08.u8fix n v)
+  | Fall v => "e=nil;obj=" ++ pr_obs (GenC08.u8fix n v)
   end.
 
 Definition pr_frame (n : node) (path : list string) (v : val) (o : out val) : string :=
@@ -145,8 +146,8 @@ Definition case_lines (ui : nat) (u : string * ty) : list string :=
         let tags := ptag ++ "," ++ path_class n v path (aval_of s) ++ dst_tag n v path ++ ",src-" ++ src_kind s ++
                     (if buf then ",buf" else ",nobuf") ++ "," ++ out_kind o in
         let args := path_text path ++ ";" ++ (if buf then "1" else "0") ++ ";" ++ src_text ptr s ++ ";" ++ pr_val true v in
-        [ id ++ ".s" ++ tab ++ "set," ++ tags ++ tab ++ fst u ++ ";p;set;" ++ args ++ tab ++ pr_set o ++ tab ++
-          match set_demand n v path (aval_of s) with Some w => "e=nil;obj=" ++ pr_obs w | None => "*" end;
+        [ id ++ ".s" ++ tab ++ "set," ++ tags ++ tab ++ fst u ++ ";p;set;" ++ args ++ tab ++ pr_set_n n o ++ tab ++
+          match set_demand n v path (aval_of s) with Some w => "e=nil;obj=" ++ pr_obs (GenC08.u8fix n w) | None => "*" end;
           id ++ ".f" ++ tab ++ "frame," ++ tags ++ tab ++ fst u ++ ";p;setframe;" ++ args ++ tab ++ pr_frame n path v o ++ tab ++
           "frame=1" ])
       (let ps := picks n v path (ui + vi * 7 + pi * 3) in combine (seqn (List.length ps)) ps))
